@@ -254,12 +254,112 @@ Section Par.
   Qed.
 End Par.
 
-(* the property's "bad memberships are reported as not ready" is refuted at full
-   strength by the faithful model: Ready is restored by a later unrelated success *)
-Lemma bad_membership_not_ready_refuted : exists evs,
-  let s := snd (run (mkEnv [] []) evs) in
-  bad_membership [mkObj 2 3 [MHyper 2]; mkObj 1 1 [MNode 5]]%positive = true /\ s_ready s = true.
+(* ---------- the code before the repairs (run_prefix) violates the property;
+   the same inputs on the repaired code (run) do not ---------- *)
+
+(* D1: Ready was restored by a later unrelated success while h2 claims itself *)
+Lemma d1_ready_restored_refuted : exists evs,
+  let objs := [mkObj 2 3 [MHyper 2]; mkObj 1 1 [MNode 5]]%positive in
+  bad_membership objs = true /\
+  s_ready (snd (run_prefix (mkEnv [] []) evs)) = true /\
+  s_ready (snd (run (mkEnv [] []) evs)) = false.
 Proof.
   exists [EUpd (mkObj 2 3 [MHyper 2]); EUpd (mkObj 1 1 [MNode 5])]%positive.
+  vm_compute. repeat split; reflexivity.
+Qed.
+
+(* D3: after deleting a claimed child the gradient dereferenced a missing entry *)
+Lemma d3_gradient_crash_refuted : exists evs,
+  gradient (add_top (snd (run_prefix (mkEnv [] []) evs))) top_name 5 None = GCrash /\
+  exists l, gradient (add_top (snd (run (mkEnv [] []) evs))) top_name 5 None = GOk l.
+Proof.
+  exists [EUpd (mkObj 2 2 [MHyper 1; MHyper 3]); EUpd (mkObj 1 1 []); EUpd (mkObj 3 1 []); EDel 3]%positive.
+  vm_compute. split; [reflexivity|eexists; reflexivity].
+Qed.
+
+(* D4: a tier-0 HyperNode first seen as a member never entered the tier sets *)
+Lemma d4_tier0_not_indexed_refuted : exists evs,
+  zget 0 (s_tier (snd (run_prefix (mkEnv [] []) evs))) = None /\
+  zget 0 (s_tier (snd (run (mkEnv [] []) evs))) = Some [1%positive].
+Proof.
+  exists [EUpd (mkObj 2 2 [MHyper 1]); EUpd (mkObj 1 0 [])]%positive.
   vm_compute. split; reflexivity.
+Qed.
+
+(* still open (known findings D5, D7): on the repaired code a double claim can stay
+   unreported, so "bad membership => not ready" is not a theorem of the model *)
+Lemma bad_membership_not_ready_refuted : exists evs,
+  let objs := [mkObj 1 2 [MHyper 2]; mkObj 3 2 [MHyper 2]]%positive in
+  bad_membership objs = true /\ s_ready (snd (run (mkEnv [] []) evs)) = true.
+Proof.
+  exists [EUpd (mkObj 1 2 [MHyper 2]); EUpd (mkObj 2 1 []); EDel 2; EUpd (mkObj 3 2 [MHyper 2])]%positive.
+  vm_compute. split; reflexivity.
+Qed.
+
+(* ---------- errors are reported: every failing update / delete leaves Ready = false ---------- *)
+(* loops that stop at the first error keep "error flag set => not ready" *)
+Lemma rebuild_all_err e : forall l a,
+  (snd a = true -> s_ready (fst a) = false) ->
+  snd (fold_left (fun (acc : st * bool) k => let '(s0, e0) := acc in
+         if (e0 : bool) then acc else
+         let '(s1, e1) := rebuild_cache e s0 k in
+         if (e1 : bool) then (mark_failed true s1 k, true) else (unfail true s1 k, false)) l a) = true ->
+  s_ready (fst (fold_left (fun (acc : st * bool) k => let '(s0, e0) := acc in
+         if (e0 : bool) then acc else
+         let '(s1, e1) := rebuild_cache e s0 k in
+         if (e1 : bool) then (mark_failed true s1 k, true) else (unfail true s1 k, false)) l a)) = false.
+Proof.
+  induction l as [|k l IH]; intros a Ha; simpl; [exact Ha|].
+  apply IH. destruct a as [s2 e2]. destruct e2; [exact Ha|].
+  destruct (rebuild_cache e s2 k) as [s3 e3]. destruct e3; simpl; [reflexivity|discriminate].
+Qed.
+
+Lemma freed_loop_err e nm : forall l a,
+  (snd a = true -> s_ready (fst a) = false) ->
+  snd (fold_left (fun (acc : st * bool) fr => let '(s0, e0) := acc in
+         if (e0 : bool) then acc else rebuild_all true e s0 (claimers (s_hn s0) fr nm)) l a) = true ->
+  s_ready (fst (fold_left (fun (acc : st * bool) fr => let '(s0, e0) := acc in
+         if (e0 : bool) then acc else rebuild_all true e s0 (claimers (s_hn s0) fr nm)) l a)) = false.
+Proof.
+  induction l as [|x l IH]; intros a Ha; simpl; [exact Ha|].
+  apply IH. destruct a as [s0 e0]. destruct e0; [exact Ha|].
+  unfold rebuild_all. apply rebuild_all_err. simpl. discriminate.
+Qed.
+
+Lemma upd_error_not_ready : forall e s o s', upd e s o = (s', true) -> s_ready s' = false.
+Proof.
+  intros e s o s' H. unfold upd, upd_gen in H. cbv zeta in H.
+  match type of H with (if ?c then _ else _) = _ => destruct c end; [discriminate|].
+  match type of H with (let '(_, _) := ?c in _) = _ => destruct c as [s1 freed] end.
+  match type of H with (if ?c then _ else _) = _ => destruct c end; [|discriminate].
+  match type of H with (let '(_, _) := ?c in _) = _ => destruct c as [s4 err] end.
+  destruct err.
+  - inversion H; subst. reflexivity.
+  - pose proof (freed_loop_err e (o_name o) freed (unfail true s4 (o_name o), false)
+                  ltac:(simpl; discriminate)) as G.
+    match type of H with (let '(_, _) := ?c in _) = _ => set (r := c) in H end.
+    change (snd r = true -> s_ready (fst r) = false) in G.
+    destruct r as [s5 err5]. destruct err5; [|discriminate]. inversion H; subst s'.
+    apply G. reflexivity.
+Qed.
+
+Lemma del_error_not_ready : forall e s nm s', del e s nm = (s', true) -> s_ready s' = false.
+Proof.
+  intros e s nm s' H. unfold del, del_gen in H.
+  destruct (rebuild_cache e _ nm) as [s2 err]. destruct err; [|discriminate].
+  inversion H; subst. reflexivity.
+Qed.
+
+(* the two error sources of BuildHyperNodeCache: a name already on the ancestor chain
+   (cycle) and a member that already has another parent (double claim) *)
+Lemma build_cycle_errors : forall f e s nm processed chain ancset,
+  pmem nm chain = true -> build (S f) e s nm processed chain ancset = (s, processed, true).
+Proof. intros. simpl. now rewrite H. Qed.
+
+Lemma add_child_second_parent_errors : forall s parent c i p,
+  aget c (s_hn s) = Some i -> i_parent i = Some p -> p <> parent ->
+  add_child s parent c = (s, true).
+Proof.
+  intros s parent c i p Hc Hp Hne. unfold add_child. rewrite Hc. rewrite Hc, Hp.
+  destruct (Pos.eqb p parent) eqn:E; [apply Pos.eqb_eq in E; contradiction|reflexivity].
 Qed.
